@@ -376,6 +376,10 @@ var c15ErrTable = map[string]string{
 	"LookupUser": "UnknownUserError", "LookupUserId": "UnknownUserIdError",
 }
 
+// c15Propagates: the one callee whose error a method may hand on unchanged (AddUser documents UnknownGroupError
+// for a group that does not exist: that is LookupGroup's error for the name it was given).
+var c15Propagates = map[string]string{"AddUser": "LookupGroup"}
+
 func c15Errors(rc *RuleCtx) {
 	var names []string
 	for n := range c15ErrTable {
@@ -401,6 +405,13 @@ func c15Errors(rc *RuleCtx) {
 				if !ok {
 					// propagated error of a callee (AddUser: LookupGroup)
 					if c, _ := resultOfCall(resolve1(v)); c != nil {
+						// only the error of a lookup whose documented type the caller documents too (round 11)
+						if fn := calleeFunc(c); fn != nil && c15Propagates[name] == fn.Name() {
+							continue
+						} else if fn != nil {
+							got = append(got, "the error of "+fn.Name()+" as it came")
+							continue
+						}
 						continue
 					}
 					got = append(got, "?"+accessPath(v))
